@@ -27,6 +27,7 @@ TokSet ==
                            <<92,49>>, <<92>> }
     [] Toks = "xws" -> { <<97>>, <<91>>, <<93>>, <<92>>, <<92, 92>>, <<32>>, <<10>>, <<123, 49, 44>>, <<50, 125>>, <<45>>, <<94>>,
                          <<92, 100>> }
+    [] Toks = "ab" -> { <<97>>, <<98>>, <<40>> }                  \* literals that overlap themselves: aab, abab, ((a
     [] Toks = "meta" -> { <<97>>, <<98>>, <<40>>, <<41>>, <<91>>, <<93>>, <<123>>, <<125>>, <<92>>, <<63>>, <<42>>,
                           <<43>>, <<124>>, <<46>>, <<94>>, <<36>>, <<32>>, <<9>> }
 FlagSet == {115, 109, 105, 120, 113, 97, 88, 32, 59, 103}      \* s m i x q a X space ; g
@@ -46,6 +47,8 @@ LitInputs(p) ==                                \* the pattern embedded in / dele
        {[p EXCEPT ![k] = x] : k \in 1..Len(p), x \in UNION {near(p[j]) : j \in 1..Len(p)}}
   \cup LET sw == [k \in 1..Len(p) |-> Counterpart(p[k])] IN                  \* the occurrence in the other case (flag i)
        {a \o sw \o b : a \in {<<>>, <<97>>}, b \in {<<>>, <<98>>}} \cup {sw \o <<120>> \o p}
+       \cup UNION {{SubSeq(p, 1, k) \o p, SubSeq(p, 1, k) \o sw, SubSeq(sw, 1, k) \o p, SubSeq(p, 1, k) \o p \o <<120>> \o sw}
+                   : k \in 1..(Len(p) - 1)}                                  \* a partial occurrence directly in front of the real one
 LitBeh(p, flags) ==                            \* behaviour for a literal pattern with its own inputs
   LET c == Compile(p, flags, TRUE) IN
   IF c.k # "ok" THEN BehOfSrc(<<p, flags, TRUE>>)
